@@ -478,6 +478,8 @@ func (sc *SpecScope) call(x *ast.CallExpr) Val {
 			return vBool(sx("=", v.ref(), "0"))
 		case KPtr:
 			return vBool(sx("=", v.S, "0"))
+		case KStruct, KArray:
+			return vBool("false")
 		}
 		return sc.fail("isnil of scalar")
 	case "tag":
@@ -841,6 +843,22 @@ func (c *FnCtx) box(v Val, t types.Type) Val {
 	id := c.w.typeID(t)
 	tn := smtName(typeKey(t))
 	fl := v.flat()
+	// re-boxing the unmodified payload of an interface value gives that value back
+	if len(fl) > 0 {
+		pre0 := fmt.Sprintf("(get_%s_0 ", tn)
+		if strings.HasPrefix(fl[0].S, pre0) && strings.HasSuffix(fl[0].S, ")") {
+			src := fl[0].S[len(pre0) : len(fl[0].S)-1]
+			same := true
+			for j, s := range fl {
+				if s.S != fmt.Sprintf("(get_%s_%d %s)", tn, j, src) {
+					same = false
+				}
+			}
+			if same {
+				return Val{K: KIfc, S: src}
+			}
+		}
+	}
 	var sorts, args []string
 	for _, s := range fl {
 		sorts = append(sorts, s.Sort)
